@@ -187,6 +187,12 @@ def case_layer(rnd, rho1, rho2, acc, sample=False, forced=None):
         for t in tops[nl:]:
             if rnd.random() < 0.5:
                 layers[rnd.choice(list(layers))].append(t)
+        # a layer may also list a sub module next to its parent (the lookup then has several candidates)
+        for L in list(layers):
+            if rnd.random() < 0.35:
+                subsof = [m for m in mods if any(is_ancestor(t, m) for t in layers[L]) and m not in layers[L]]
+                if subsof:
+                    layers[L].append(rnd.choice(subsof))
         names = list(layers)
         rnd.shuffle(names)
         anything = rnd.random() < 0.12
@@ -222,6 +228,10 @@ def case_labels(rnd, rho1, rho2, acc, sample=False, forced=None):
         mods, aliased = forced["mods"], forced["aliased"]
     else:
         mods = abstract_tree(rnd, 5, 11)
+        if rnd.random() < 0.6:
+            # the root component takes part in the renaming as well (its name may then recur inside deeper components)
+            root = rnd.choice(ABSTRACT)
+            mods = [root + m[1:] for m in mods]
         aliased = rnd.sample(mods, rnd.randint(1, min(4, len(mods))))
     case = {"kind": "labels", "mods": mods, "aliased": aliased, "rho2": rho2}
     outs = []
